@@ -162,12 +162,20 @@ def one_case(ctx, rng, idx, probe=False):
                 f_ = rng.choice(['%Y%m%dT%H%M%S', '%d/%m/%Y %H:%M:%S', None])
                 if f_:
                     kw['outputFormat'] = f_
+            if t == 'number' and rng.random() < 0.3:
+                # how the numbers were written where they came from; the dump records its own dialect
+                kw.update(rng.choice([{'decimalChar': ',', 'groupChar': '.'}, {'groupChar': '.'}, {'decimalChar': ','},
+                                      {'groupChar': ' ', 'bareNumber': False}]))
             if tfp and t == 'time':
                 f_ = rng.choice(['%H.%M.%S', None])
                 if f_:
                     kw['outputFormat'] = f_
             steps.append(DF.set_type(DF.helpers.resource_matcher.re.escape(n) if False else __import__('re').escape(n),
                                      type=t, resources='res_%d' % (i + 1), **kw))
+    # some resources reach the dumper with zero rows
+    emptied = [i for i in range(nres) if rng.random() < 0.2]
+    for i in emptied:
+        steps.append(DF.filter_rows(lambda row: False, resources='res_%d' % (i + 1)))
     # the incoming descriptors may carry the encoding of where the data came from (load(..., encoding=...) records it)
     src_encoding = rng.choice([None, None, None, 'latin-1', 'cp1252', 'utf-16'])
     if src_encoding:
@@ -195,7 +203,7 @@ def one_case(ctx, rng, idx, probe=False):
         os.makedirs(base, exist_ok=True)
         steps.append(DF.dump_to_zip(os.path.join(base, 'o.zip'), **kw))
     case = {'format': fmt, 'target': target, 'add_filehash_to_path': filehash, 'temporal_format_property': tfp,
-            'row_key_order': key_order, 'incoming_encoding': src_encoding,
+            'row_key_order': key_order, 'incoming_encoding': src_encoding, 'emptied_resources': emptied,
             'resources': [{'fields': f, 'rows': canon._plain(r)} for f, r in resources], 'probe': probe}
     try:
         with quiet():
